@@ -206,30 +206,37 @@ def where_of(mc, name):
 
 
 def singular_power_helper(mc):
-    """name of the method that __pow__ hands the non invertible elements to: the one method of the class with a single
-    parameter that the body of __pow__ calls, apart from the elementary functions it is built on"""
+    """name of the method that the power operator hands the non invertible elements to: the one-argument method that is
+    applied to a *selection* of the elements (`self[mask].helper(p)`) in `__pow__` or in a method of the class reached from
+    it.  No guess is made when there is not exactly one such call."""
     import ast
-    from ..srcmodel import called_names
     ci = mc.classes['Bicomplex']
-    r = ci.lookup('__pow__')
-    if r is None:
+    if ci.lookup('__pow__') is None:
         raise AnalysisError('anchor vanished: Bicomplex.__pow__')
-    # .. and it is called on a selection of the elements (self[mask].helper(p))
-    on_selection = {n.func.attr for n in ast.walk(r[1]) if isinstance(n, ast.Call) and isinstance(n.func, ast.Attribute)
-                    and isinstance(n.func.value, ast.Subscript)}
-    def one_arg_methods(names):
-        out = []
-        for nm in sorted(names):
-            q = ci.lookup(nm)
-            if q is None or q[0] != 'method' or nm in ('log', 'exp', 'mod_c', 'norm', 'conjugate'):
+    seen, todo, found = set(), ['__pow__'], set()
+    while todo:
+        nm = todo.pop()
+        if nm in seen:
+            continue
+        seen.add(nm)
+        r = ci.lookup(nm)
+        if r is None or not isinstance(r[1], ast.FunctionDef):
+            continue
+        for n in ast.walk(r[1]):
+            if not (isinstance(n, ast.Call) and isinstance(n.func, ast.Attribute)):
                 continue
-            if len(q[1].args.args) == 2:
-                out.append(nm)
-        return out
-    cands = one_arg_methods(called_names(r[1]) & on_selection) or one_arg_methods(called_names(r[1]))
-    if len(cands) != 1:
-        raise AnalysisError('anchor vanished: the helper of Bicomplex.__pow__ for non invertible elements (candidates %s)' % cands)
-    return cands[0]
+            recv, meth = n.func.value, n.func.attr
+            q = ci.lookup(meth)
+            if q is None or q[0] not in ('method', 'static'):
+                continue
+            if isinstance(recv, ast.Subscript) and len(q[1].args.args) == 2:
+                found.add(meth)
+            elif isinstance(recv, ast.Name) and recv.id == 'self' and meth not in ('log', 'exp'):
+                todo.append(meth)
+    if len(found) != 1:
+        raise AnalysisError('anchor vanished: the helper of Bicomplex.__pow__ for non invertible elements (candidates %s)'
+                            % sorted(found))
+    return found.pop()
 
 
 def ring(ctx, mc):
